@@ -300,6 +300,7 @@ def classify(case):
         tags.append('table-own-create_date:%s' % ('none' if not od else od[0] if od[0] == 'datetime' else 'ISO text' if U.model_date(od[1])[0] == 'datetime' else 'non-ISO text'))
         tags.append('creation_date-argument:%s' % ('given' if U.dated(case) else 'absent (now)'))
         tags.append('userblock:%s' % (case.get('userblock') or 0))
+        tags.append('live-metadata-edited:%s' % ((case.get('md_edit') or {}).get('mode') or 'no'))
         tags.append('earlier-write-with-format_fs:%s' % bool(case.get('prelude')))
         tags.append('theorem-domain:%s' % ('inside' if U.in_domain(case) else 'outside'))
     return tags
@@ -345,7 +346,7 @@ def shrink(case):
         yield with_spec(layout=['dense'])
     if any(len(i) > 2 or ord(max(i)) > 127 for i in s['oids'] + s['sids'] if i):
         yield with_spec(oids=['o%d' % i for i in range(r)], sids=['s%d' % j for j in range(c)])
-    for flag in ('np_md', 'prelude', 'ids_as', 'own_genby', 'own_date', 'userblock'):
+    for flag in ('np_md', 'prelude', 'ids_as', 'own_genby', 'own_date', 'userblock', 'md_edit'):
         if case.get(flag):
             yield {k: v for k, v in case.items() if k != flag}
     if case.get('gen2'):
